@@ -226,7 +226,7 @@ theorem cacheUp_eq_full {R : Pos → Prop} (L : Laws N R) (hcp : ∀ x t, C x = 
 
 /-- **the merging loop of `addSingle` on a full forest**, by induction on the low trees still to be
 merged -/
-theorem faddLoop_spec (cr : CR H) {T n : Nat} (add : Leaf H) (Y : PF H)
+theorem faddLoop_spec (nz : NZ H) {T n : Nat} (add : Leaf H) (Y : PF H)
     (hn63 : n + 1 < 2 ^ 63) (hfit : forestRows (n + 1) ≤ T) (hremA : add.remember = true) :
     ∀ (os : List (Option (CTree H))) (k : Nat) (a : CTree H) (m : MapPollard H)
       (A : Pos → Option (Leaf H)) (C : H → Option Pos) (pNode : Leaf H) (fuel : Nat),
@@ -263,7 +263,7 @@ theorem faddLoop_spec (cr : CR H) {T n : Nat} (add : Leaf H) (Y : PF H)
     have hk' : k + 1 + os.length ≤ 63 := by rw [hlen] at hk; omega
     have hfuel' : os.length < f := by rw [hlen] at hfuel; omega
     rw [hlen, show k + (os.length + 1) = k + 1 + os.length by omega]
-    have L := laws_of_ok cr ok
+    have L := laws_of_ok nz ok
     have hσent : ((k, n >>> k), some a) ∈ (Y ++ lowV n (k + 1) os) ++ [(rootPos n k, o), ((k, n >>> k), some a)] := by simp
     have hρent : (rootPos n k, o) ∈ (Y ++ lowV n (k + 1) os) ++ [(rootPos n k, o), ((k, n >>> k), some a)] := by simp
     have hσa := head_some hσent
@@ -276,7 +276,7 @@ theorem faddLoop_spec (cr : CR H) {T n : Nat} (add : Leaf H) (Y : PF H)
       have htr := head_some hρent
       have hnode : A (rootPos n k) = some ⟨tr.hash, true⟩ := fa.sto _ _ _ htr
       have hnz : (⟨tr.hash, true⟩ : Leaf H).hash ≠ zero := by
-        exact ctree_hash_ne_zero cr tr (fun x hx => ok.nz x (List.mem_flatMap.2 ⟨_, hρent, hx⟩)) 0 0 _
+        exact ctree_hash_ne_zero nz tr (fun x hx => ok.nz x (List.mem_flatMap.2 ⟨_, hρent, hx⟩)) 0 0 _
           (nodes_head tr 0 0)
       obtain ⟨m', hstep, rep', hnl', hfull'⟩ := addLoop_step_nonempty rep hn hn63 hfit hfull hbk hnode hnz add pNode f
       simp only at rep' hstep
@@ -297,7 +297,7 @@ theorem faddLoop_spec (cr : CR H) {T n : Nat} (add : Leaf H) (Y : PF H)
       rw [hPρ] at fa' ok' rep' hAP ⊢
       rw [accV_next] at fa' ok'
       obtain ⟨m'', A'', C'', hloop, rep'', hnl'', hfull'', fa''⟩ :=
-        faddLoop_spec cr add Y hn63 hfit hremA os (k + 1) (.node tr a) m' _ C _ f rep' (hnl'.trans hn)
+        faddLoop_spec nz add Y hn63 hfit hremA os (k + 1) (.node tr a) m' _ C _ f rep' (hnl'.trans hn)
           (hfull'.trans hfull) ok' fa' hbits' hbit' hk' hfuel' hAP (fun y hy => by cases hy)
       exact ⟨m'', A'', C'', hloop, rep'', hnl''.trans hnl', hfull'', fa''⟩
     | none =>
@@ -371,7 +371,7 @@ theorem faddLoop_spec (cr : CR H) {T n : Nat} (add : Leaf H) (Y : PF H)
       rw [hPσ] at fa' ok' hAP ⊢
       rw [accV_next] at fa' ok'
       obtain ⟨m'', A'', C'', hloop, rep'', hnl'', hfull'', fa''⟩ :=
-        faddLoop_spec cr add Y hn63 hfit hremA os (k + 1) a m' _ _ pNode f rep2 (hnl'.trans hn)
+        faddLoop_spec nz add Y hn63 hfit hremA os (k + 1) a m' _ _ pNode f rep2 (hnl'.trans hn)
           (hfull'.trans hfull) ok' fa' hbits' hbit' hk' hfuel' hAP hax
       exact ⟨m'', A'', C'', hloop, rep'', hnl''.trans hnl', hfull'', fa''⟩
 
@@ -428,7 +428,7 @@ theorem addSingle_start_grow_full {m : MapPollard H} {T n : Nat}
 /-! ### one addition -/
 
 /-- the core of `addSingle` once the leaf has been stored (any allocation `T ≥ TreeRows(n+1)`) -/
-theorem faddSingle_core (cr : CR H) {m1 : MapPollard H} {F : Forest H} {T : Nat} (x : H)
+theorem faddSingle_core (nz : NZ H) {m1 : MapPollard H} {F : Forest H} {T : Nat} (x : H)
     (hn : F.numLeaves + 1 < 2 ^ 63) (hy : Hyg F) (hfit : forestRows (F.numLeaves + 1) ≤ T)
     (fa : FA A C F.nodes (fun _ => False))
     (rep1 : Rep m1 T (upd A (0, F.numLeaves) (some ⟨x, true⟩)) (upd C x (some (0, F.numLeaves))))
@@ -467,7 +467,7 @@ theorem faddSingle_core (cr : CR H) {m1 : MapPollard H} {F : Forest H} {T : Nat}
   have h8 : (0#8 : U8) = H8 0 := rfl
   have hpos0 : encP T (0, F.numLeaves) = encP T (0, F.numLeaves >>> 0) := by rw [Nat.shiftRight_zero]
   obtain ⟨m2, A2, C2, hloop, rep2, hnl2, hfull2, fa2⟩ :=
-    faddLoop_spec cr (⟨x, true⟩ : Leaf H) Y hn hfit rfl os 0 (.leaf x) m1 _ _ ⟨x, true⟩ 65 rep1 hnl hfull ok0 fa0
+    faddLoop_spec nz (⟨x, true⟩ : Leaf H) Y hn hfit rfl os 0 (.leaf x) m1 _ _ ⟨x, true⟩ 65 rep1 hnl hfull ok0 fa0
       (fun i hi => by rw [Nat.zero_add]; exact hbits i (by omega))
       (by rw [Nat.zero_add, hlen]; exact hbit) (by omega) (by omega) hA0
       (fun y hy => by cases hy; rfl)
@@ -478,7 +478,7 @@ theorem faddSingle_core (cr : CR H) {m1 : MapPollard H} {F : Forest H} {T : Nat}
 /-- **`addSingle` on a full forest preserves `FInv`** (merging, lifting over empty roots, and growth
 of `TotalRows` included): the new leaf is appended to the specification forest and is cached,
 whatever its `Remember` flag -/
-theorem finv_addSingle (cr : CR H) {m : MapPollard H} {F : Forest H} (s : FInv m F) (a : Leaf H)
+theorem finv_addSingle (nz : NZ H) {m : MapPollard H} {F : Forest H} (s : FInv m F) (a : Leaf H)
     (hn : F.numLeaves + 1 < 2 ^ 63) (hfresh : a.hash ∉ F.liveLeaves) (hx0 : a.hash ≠ zero)
     (hxph : ∀ u v : H, a.hash ≠ ph u v) :
     ∃ m', MapPollard.addSingle a m = (m', .ok ()) ∧
@@ -497,7 +497,7 @@ theorem finv_addSingle (cr : CR H) {m : MapPollard H} {F : Forest H} (s : FInv m
       have := forestRows_succ_le F.numLeaves
       exact ⟨_, m1, by omega, h2.T_le, h1, h2, h3, h4⟩
   obtain ⟨m2, A2, C2, hloop, rep2, hnl2, hfull2, fa2⟩ :=
-    faddSingle_core cr a.hash hn s.hyg hfit fa rep1 (hnl1.trans s.n_eq) (hfull1.trans s.full) hfresh hx0 hxph
+    faddSingle_core nz a.hash hn s.hyg hfit fa rep1 (hnl1.trans s.n_eq) (hfull1.trans s.full) hfresh hx0 hxph
   refine ⟨m2, hstart.trans hloop, ?_⟩
   have rep3 : Rep ({ m2 with numLeaves := m2.numLeaves + 1 } : MapPollard H) T A2 C2 :=
     rep2.of_same rfl (fun _ => rfl) (fun _ => rfl)
@@ -512,7 +512,7 @@ theorem finv_addSingle (cr : CR H) {m : MapPollard H} {F : Forest H} (s : FInv m
 
 /-- **`add` on a full forest preserves `FInv`**: all leaves are appended to the specification
 forest, all of them are cached -/
-theorem finv_add (cr : CR H) : ∀ (adds : List (Leaf H)) {m : MapPollard H} {F : Forest H}, FInv m F →
+theorem finv_add (nz : NZ H) : ∀ (adds : List (Leaf H)) {m : MapPollard H} {F : Forest H}, FInv m F →
     F.numLeaves + adds.length < 2 ^ 63 →
     (∀ a ∈ adds, a.hash ∉ F.liveLeaves ∧ a.hash ≠ zero ∧ ∀ u v : H, a.hash ≠ ph u v) →
     (adds.map (·.hash)).Nodup →
@@ -523,7 +523,7 @@ theorem finv_add (cr : CR H) : ∀ (adds : List (Leaf H)) {m : MapPollard H} {F 
   | a :: rest, m, F, s, hn, hfr, hnd => by
     rw [List.length_cons] at hn
     obtain ⟨h1, h2, h3⟩ := hfr a List.mem_cons_self
-    obtain ⟨m1, hadd, s1⟩ := finv_addSingle cr s a (by omega) h1 h2 h3
+    obtain ⟨m1, hadd, s1⟩ := finv_addSingle nz s a (by omega) h1 h2 h3
     rw [List.map_cons, List.nodup_cons] at hnd
     have hfr' : ∀ b ∈ rest, b.hash ∉ (F.add a.hash).liveLeaves ∧ b.hash ≠ zero ∧ ∀ u v : H, b.hash ≠ ph u v := by
       intro b hb
@@ -533,7 +533,7 @@ theorem finv_add (cr : CR H) : ∀ (adds : List (Leaf H)) {m : MapPollard H} {F 
       rintro (h | h)
       · exact g1 h
       · exact hnd.1 (by rw [← h]; exact List.mem_map_of_mem hb)
-    obtain ⟨m2, hrest, s2⟩ := finv_add cr rest s1 (by rw [MapAdd.numLeaves_add]; omega) hfr' hnd.2
+    obtain ⟨m2, hrest, s2⟩ := finv_add nz rest s1 (by rw [MapAdd.numLeaves_add]; omega) hfr' hnd.2
     refine ⟨m2, ?_, ?_⟩
     · unfold MapPollard.add
       rw [hadd]; exact hrest
